@@ -93,10 +93,11 @@ class Prov:
         else:
             rec["pkce_essential"] = ce
 
-    def authz(self, cc, ccm, state="ST"):
-        """returns ('code', code) | ('AzRefused', n) | ('AzRaised', name)"""
+    def authz(self, cc, ccm, state="ST", cookie=None):
+        """returns ('code', code) | ('AzRefused', n) | ('AzRaised', name); self.last_cookie is the session cookie of the response"""
         self.n += 1
-        if self.n % 200 == 0:
+        self.cookie_in = cookie
+        if self.n % 200 == 0 and cookie is None:
             self.server.context.session_manager.flush()
         req = {"client_id": "client_1", "redirect_uri": "https://client_1.example.com/cb", "scope": "openid",
                "state": state, "response_type": "code"}
@@ -119,9 +120,11 @@ class Prov:
                 return ("AzRefused", 2)
             return ("AzRefused", 0)
         try:
-            res = self.az.process_request(pr)
+            ck = getattr(self, "cookie_in", None)
+            res = self.az.process_request(pr, http_info={"cookie": ck} if ck else None)
         except Exception as e:
             return ("AzRaised", type(e).__name__)
+        self.last_cookie = res.get("cookie") if isinstance(res, dict) else None
         ra = res.get("response_args") if isinstance(res, dict) else None
         if ra is None or "code" not in ra:
             return ("AzRefused", 0)
@@ -194,6 +197,10 @@ def run_flow(ctx, prov, ce, cc, ccm, cv, tccm, kind, cases, code_from=None, note
         out = prov.token(a[1], cv, tccm)
     else:
         out = a
+    return record_flow(ctx, prov, ce, cc, ccm, cv, tccm, kind, cases, out, note)
+
+
+def record_flow(ctx, prov, ce, cc, ccm, cv, tccm, kind, cases, out, note=None):
     rec = {"kind": kind, "provider": {"methods": prov.methods, "essential": prov.essential, "oidc": prov.oidc},
            "pkce_essential": ce, "code_challenge": cc, "code_challenge_method": ccm, "code_verifier": cv,
            "token_code_challenge_method": tccm, "outcome": list(out)}
@@ -493,6 +500,42 @@ def downgrade_pairs(ctx, provs, rng, cases):
                                       % (base, o, t), {"provider": prov.methods, "m": m, "cv": cv, "c": c})
 
 
+def browser_session_flows(ctx, provs, rng, cases):
+    """several authorizations from one browser session (the session cookie of the first response is presented again,
+    new state, new challenge): every code is bound to the challenge of ITS OWN authorization request"""
+    for prov in provs:
+        prov.set_client_flag(None)
+        for m in [x for x in ALL if x in prov.methods][:3]:
+            vs = [rstr(rng, 43) for _ in range(4)]
+            cs = [ref_tr(m, v) for v in vs]
+            a0 = prov.authz(cs[0], m, state="S0")
+            ck = getattr(prov, "last_cookie", None)
+            if a0[0] != "code" or not ck:
+                ctx.notes.append("browser session flow: no cookie / code on %r (%r)" % (prov.methods, a0))
+                continue
+            ctx.count("browser-session:" + m)
+            # later requests of the same browser; the verifier of an EARLIER request must not redeem a later code
+            for i, (own, other) in enumerate([(1, 0), (2, 1), (3, 0)]):
+                a = prov.authz(cs[own], m, state="S%d" % own, cookie=ck)
+                ck = getattr(prov, "last_cookie", None) or ck
+                if a[0] != "code":
+                    record_flow(ctx, prov, None, cs[own], m, vs[own], None, "browser-later-refused", cases, a)
+                    continue
+                out = prov.token(a[1], vs[other], None)
+                record_flow(ctx, prov, None, cs[own], m, vs[other], None, "browser-earlier-verifier", cases, out,
+                            note="code of request %d, verifier of request %d, same browser session" % (own, other))
+                if out[0] != "Tokens":
+                    out2 = prov.token(a[1], vs[own], None)
+                    record_flow(ctx, prov, None, cs[own], m, vs[own], None, "browser-own-verifier", cases, out2,
+                                note="code of request %d with its own verifier (after a refused attempt)" % own)
+            # a later request WITHOUT a challenge from the same browser must not inherit the first one's binding
+            if not prov.essential:
+                a = prov.authz(None, None, state="S9", cookie=ck)
+                if a[0] == "code":
+                    out = prov.token(a[1], None, None)
+                    record_flow(ctx, prov, None, None, None, None, None, "browser-no-pkce-after-pkce", cases, out)
+
+
 def build_providers():
     import srv
     provs = []
@@ -513,6 +556,7 @@ def run(ctx):
     presence_table(ctx, provs, rng, cases)
     lengths_and_alphabets(ctx, provs, rng, cases)
     downgrade_pairs(ctx, provs, rng, cases)
+    browser_session_flows(ctx, provs, rng, cases)
     rp_cases(ctx, provs, rng, cases, rpcases, unres)
     random_flows(ctx, provs, rng, cases, 600 if ctx.quick else 30000)
     imp = ["Lib.Base", "Lib.PyStr", "Lib.PkceTy", "Gen.PkceTables", "Model.Pkce"]
